@@ -46,6 +46,8 @@ def run_patch(prop, patch, repo='/repo'):
 
 def run_for(prop, repo='/repo'):
     vio = sorted(glob.glob(os.path.join(HERE, 'selftest', 'violations', prop + '-*.patch')))
+    # mutants written by independent sub-agents (kept with their demonstration under seeded/)
+    vio += sorted(glob.glob(os.path.join(HERE, 'seeded', prop + '-*', 'patch.diff')))
     eqv = sorted(glob.glob(os.path.join(HERE, 'selftest', 'equivalents', prop + '-*.patch')))
     failures = []
     det = tot = sil = etot = skipped = 0
@@ -54,7 +56,7 @@ def run_for(prop, repo='/repo'):
         vr = list(ex.map(lambda p: (p, run_patch(prop, p, repo)), vio))
         er = list(ex.map(lambda p: (p, run_patch(prop, p, repo)), eqv))
     for p, r in vr:
-        name = os.path.basename(p)
+        name = os.path.basename(p) if not p.endswith('patch.diff') else 'seeded/' + os.path.basename(os.path.dirname(p))
         if r['status'] == 'skipped':
             skipped += 1
             details.append({'patch': name, 'result': 'skipped', 'why': r.get('why')})
